@@ -61,6 +61,11 @@ ByMean(s) == SortSeq(s, LAMBDA a, b : a.m < b.m)
 (* also fall inside an item that has a neighbour of equal mean (Tied); an  *)
 (* item with distinct neighbours is never split.                           *)
 (***************************************************************************)
+\* least index x in lo..hi with c[x] >= p (c increasing, c[hi] >= p): binary search
+RECURSIVE FirstGE(_, _, _, _)
+FirstGE(c, p, lo, hi) == IF lo >= hi THEN lo
+                         ELSE LET mid == (lo + hi) \div 2 IN
+                              IF c[mid] >= p THEN FirstGE(c, p, lo, mid) ELSE FirstGE(c, p, mid + 1, hi)
 Tied(in, i) == \/ (i > 1 /\ in[i - 1].m = in[i].m)
                \/ (i < Len(in) /\ in[i + 1].m = in[i].m)
 \* (TLC idiom: \A x \in {e} binds x to the VALUE of e; a LET would re-evaluate e at every use inside an action)
@@ -70,7 +75,7 @@ IsCoarsening(in, out) ==
        /\ \A j \in 1..Len(out) : out[j].w > 0
        /\ \A ci \in {CumW(in)}, co \in {CumW(out)} :
             LET n == Len(in)
-                At(p) == Cardinality({i \in 1..n : ci[i] < p}) + 1    \* the item of in covering position p
+                At(p) == FirstGE(ci, p, 1, n)                            \* the item of in covering position p
             IN /\ ci[n] = co[Len(out)]                                  \* weight conserved
                /\ \A j \in 1..Len(out) :
                     \A a \in {At((IF j = 1 THEN 0 ELSE co[j - 1]) + 1)}, b \in {At(co[j])} :
